@@ -500,10 +500,7 @@ func (d *dataWorld) opSelect(tp *simkit.Tape, stats map[string]int) {
 	shape := ""
 	pick := pickAhead
 	if pick == 4 && simkit.Params["partition"] == "strict" {
-		pick = 5 // the strict partition leaves out the statements of known findings C02-F1 and C02-F2
-	}
-	if pick == 3 && simkit.Params["partition"] == "strict" {
-		pick = 6
+		pick = 5 // the strict partition leaves out the statements of known finding C02-F1
 	}
 	if pick >= 19 && pick <= 20 && simkit.Params["partition"] == "strict" {
 		pick = 8 // (known finding C02-F4)
@@ -684,9 +681,7 @@ func (d *dataWorld) opSelect(tp *simkit.Tape, stats map[string]int) {
 			if shape == "aggregates-distinct" && len(o.received) > 1 {
 				d.finding = "C02-F1"
 			}
-			if strings.HasPrefix(shape, "aggregates") && len(o.received) == 0 && len(got) == 0 && len(want) == 1 {
-				d.finding = "C02-F2"
-			}
+			// (an aggregate over an empty route was finding C02-F2 until fix 7a7be03: a recurrence is a violation)
 			d.orderFinding(shape, o)
 			d.fail("C02-result-differs-from-single-database", "%q (rule %s): the proxy returned %d rows %v; one database holding all shards returns %d rows %v; backends received %q", sql, rule.typ, len(got), clip(got), len(want), clip(want), o.recvSQL)
 			return
